@@ -132,6 +132,9 @@ func canon(s []span) ([]span, error) {
 			if !this.max.equal(next.min) { // If equal, we can merge unless both are open (handled below)
 				if len(this.max.pre) == 0 {
 					maxPlusOne := this.max.copy()
+					// inc steps by the last number the user wrote ("2" -> "3",
+					// "2.0" -> "2.1"); the successor we want is always a patch step.
+					maxPlusOne.fill(0)
 					err := maxPlusOne.inc()
 					if err != nil {
 						return nil, err
